@@ -45,7 +45,7 @@ type (
 		k   int64
 	}
 	pSlice struct{ v ssa.Value } // a slice whose content is not known (the result of a call): its bytes are terms
-	pCmp   struct { // sym op k (a boolean that is not decided)
+	pCmp   struct {              // sym op k (a boolean that is not decided)
 		sym string
 		op  token.Token
 		k   int64
@@ -68,13 +68,13 @@ type (
 		phis    map[*ssa.Phi]interface{}
 	}
 	peval struct {
-		r       *core.Run
-		fn      *ssa.Function
-		tok     int64
-		paths   []pePath
-		steps   int
-		syms    map[*ssa.Parameter]string
-		aborted bool
+		r        *core.Run
+		fn       *ssa.Function
+		tok      int64
+		paths    []pePath
+		steps    int
+		syms     map[*ssa.Parameter]string
+		aborted  bool
 		concrete bool // folding a pure helper: every branch must be decided
 		loops    bool // follow loop back-edges (the counters are concrete): used to read byte compositions written as loops
 		bytes    bool // slices returned by calls are kept as symbolic byte sources
